@@ -5,8 +5,10 @@ package deviceshare
 import (
 	"context"
 	"fmt"
+	"os"
 	"sort"
 	"strconv"
+	"strings"
 	"testing"
 
 	corev1 "k8s.io/api/core/v1"
@@ -19,6 +21,7 @@ import (
 
 	apiext "github.com/koordinator-sh/koordinator/apis/extension"
 	schedulingv1alpha1 "github.com/koordinator-sh/koordinator/apis/scheduling/v1alpha1"
+	"github.com/koordinator-sh/koordinator/pkg/scheduler/frameworkext"
 	"github.com/koordinator-sh/koordinator/pkg/scheduler/frameworkext/hinter"
 	"github.com/koordinator-sh/koordinator/pkg/scheduler/frameworkext/schedulingphase"
 	"github.com/koordinator-sh/koordinator/pkg/util/transformer"
@@ -390,6 +393,75 @@ type c07CycleSpec struct {
 	between    func()                     // what happens between Filter and Reserve
 	pick       func(feasible []int) int   // the node Reserve is called on
 	unreserve  bool
+	// extension 4: the pod matches NONE of the reservations on the nodes.  unmatched[node index] = the Available reservations
+	// of that node (reserve pod id, its record, every pod ever assigned to it); nil = a cycle without restore state.
+	// owners = the pods that hold their devices INSIDE a reservation (the ledger books them on top of the reservation).
+	unmatched map[int][]*c07EvRsv
+	owners    map[int]bool
+	overconsumed bool // set by cycle(): some reservation's owners hold more than it does on a GPU (VERIF_C07_OVERCONSUME=1 only)
+}
+
+func c07RsvListTok(l []*c07EvRsv) string {
+	s := strconv.Itoa(len(l))
+	for _, rv := range l {
+		s += fmt.Sprintf(" %d %s", rv.id, c07IntsTok(rv.owners))
+	}
+	return s
+}
+
+// what is FREE on a GPU by the harness' own record: total minus what the live holders hold there.  A reservation holds
+// its whole record, consumed by its owners or not; an owner pod's devices are part of its reservation's holding (the
+// ledger books both), so owners are left out.
+func (sp *c07CycleSpec) freeOn(nd *c07MNode, l *c07Ledger, minor int) c07Vals {
+	row := l.row(0, minor)
+	if sp.unmatched == nil {
+		return row.f
+	}
+	var held c07Vals
+	on := func(id int) c07Vals { // what live holder id holds on this GPU, by my own record
+		var v c07Vals
+		for _, a := range nd.live[0][id] {
+			if a.minor == minor {
+				for k := 0; k < c07D; k++ {
+					v[k] += a.vec.val(k)
+				}
+			}
+		}
+		return v
+	}
+	for id := range nd.live[0] {
+		if sp.owners[id] {
+			continue
+		}
+		v := on(id)
+		for _, rv := range sp.unmatched[nd.idx] {
+			if rv.id != id {
+				continue
+			}
+			// a reservation: its owners' devices are INSIDE its holding; should they hold more than it does on this GPU
+			// (Default / Aligned policy: the rest comes out of the node's free amount) the excess is in use as well
+			var inside c07Vals
+			for _, o := range rv.owners {
+				w := on(o)
+				for k := 0; k < c07D; k++ {
+					inside[k] += w[k]
+				}
+			}
+			for k := 0; k < c07D; k++ {
+				if inside[k] > v[k] {
+					v[k] = inside[k]
+				}
+			}
+		}
+		for k := 0; k < c07D; k++ {
+			held[k] += v[k]
+		}
+	}
+	var f c07Vals
+	for k := 0; k < c07D; k++ {
+		f[k] = c07Max0(row.t[k] - held[k])
+	}
+	return f
 }
 
 // returns (a Reserve committed, the case must stop)
@@ -478,15 +550,98 @@ func (m *c07Multi) cycle(sp *c07CycleSpec) (bool, bool) {
 		h.Fail("C07:prefilter-refused", "PreFilter refused a well-formed GPU pod: %v", pst)
 		return false, true
 	}
+	// extension 4: the restore state of every node, as frameworkext's BeforePreFilter builds it before any Filter: the pod
+	// matches none of the reservations
+	if sp.unmatched != nil {
+		h.Tag("cycle:restore-state-unmatched-reservations")
+		if h.Guard(func() { pl.PreRestoreReservation(context.TODO(), cs, pod) }) {
+			h.Obs("panic")
+			return false, true
+		}
+		gpu := schedulingv1alpha1.GPU
+		for i := range m.ns {
+			nd := m.sel(i)
+			rvs := sp.unmatched[i]
+			h.Op("cyrst %s", c07RsvListTok(rvs))
+			var us []*frameworkext.ReservationInfo
+			for _, rv := range rvs {
+				ro := c07RsvObj(rv.id, rv.g, true, true, schedulingv1alpha1.ReservationAvailable, rv.policy)
+				ro.Status.NodeName = names[i]
+				ri := frameworkext.NewReservationInfo(ro)
+				for _, o := range rv.owners {
+					ri.AddAssignedPod(c07EvPodObj(o, nil, names[i]))
+				}
+				us = append(us, ri)
+			}
+			var out interface{}
+			if h.Guard(func() { out, _ = pl.RestoreReservation(context.TODO(), cs, pod, nil, us, nd.ni) }) {
+				h.Obs("panic")
+				return false, true
+			}
+			rs, _ := out.(*nodeReservationRestoreStateData)
+			if rs == nil {
+				h.Obs("restore nil")
+				continue
+			}
+			for _, a := range rs.unmatched {
+				rid, err := strconv.Atoi(strings.TrimPrefix(a.rInfo.Pod.Name, "p"))
+				if err != nil {
+					rid = 999
+				}
+				h.Obs("ra 1 %d %s", rid, c07DRTok(0, a.allocatable[gpu]))
+				h.Obs("rb 1 %d %s", rid, c07DRTok(0, a.allocated[gpu]))
+				h.Obs("rc 1 %d %s", rid, c07DRTok(0, a.remained[gpu]))
+				if len(a.allocated[gpu]) == 0 {
+					h.Tag("restore:unmatched:unconsumed")
+				} else if len(a.remained[gpu]) == 0 {
+					h.Tag("restore:unmatched:fully-consumed")
+				} else {
+					h.Tag("restore:unmatched:partly-consumed")
+				}
+			}
+			h.Obs("rm 2 %s", c07DRTok(0, rs.mergedUnmatchedUsed[gpu]))
+			// the hypothesis rsvOK of unmatched_discount_val / unmatched_reservation_remainder_not_free on my own record:
+			// no reservation's owners hold more than the reservation does on one of its GPUs
+			hyp := true
+			for _, rv := range rvs {
+				for _, a := range nd.live[0][rv.id] {
+					var inside c07Vals
+					for _, o := range rv.owners {
+						for _, b := range nd.live[0][o] {
+							if b.minor == a.minor {
+								for k := 0; k < c07D; k++ {
+									inside[k] += b.vec.val(k)
+								}
+							}
+						}
+					}
+					for k := 0; k < c07D; k++ {
+						if inside[k] > a.vec.val(k) {
+							hyp = false
+						}
+					}
+				}
+			}
+			if hyp {
+				h.Tag("hyp:rsvOK")
+			} else {
+				h.Obs("rsvhyp 0")
+				h.Tag("hyp:not-rsvOK")
+				sp.overconsumed = true
+			}
+		}
+	}
 	// do the GPUs the pod may use fit on the value ledger l?  (designated: exactly these GPUs; else: any cnt non-zero GPUs)
+	var fitsNode *c07MNode
 	fitsDesignated := func(l *c07Ledger) bool {
 		for _, a := range des {
 			row := l.row(0, a.minor)
 			if row.t == (c07Vals{}) {
 				return false
 			}
+			free := sp.freeOn(fitsNode, l, a.minor)
 			for k := 0; k < c07D; k++ {
-				if req.val(k) > row.f[k] {
+				if req.val(k) > free[k] {
 					return false
 				}
 			}
@@ -501,8 +656,9 @@ func (m *c07Multi) cycle(sp *c07CycleSpec) (bool, bool) {
 				continue
 			}
 			ok := true
+			free := sp.freeOn(nd, l, d.minor)
 			for k := 0; k < c07D; k++ {
-				if req.val(k) > row.f[k] {
+				if req.val(k) > free[k] {
 					ok = false
 				}
 			}
@@ -513,6 +669,7 @@ func (m *c07Multi) cycle(sp *c07CycleSpec) (bool, bool) {
 		return q >= cnt
 	}
 	fits := func(nd *c07MNode) bool {
+		fitsNode = nd
 		if designated {
 			return fitsDesignated(nd.cur)
 		}
@@ -529,7 +686,9 @@ func (m *c07Multi) cycle(sp *c07CycleSpec) (bool, bool) {
 		}
 		h.Obs("filter %d", vB(st.IsSuccess()))
 		h.Tag(fmt.Sprintf("cycle:Filter:%d", vB(st.IsSuccess())))
-		if want := fits(nd); want != st.IsSuccess() {
+		if want := fits(nd); want != st.IsSuccess() && sp.overconsumed {
+			h.Tag("cycle:Filter:verdict-differs:owner-exceeds-reservation") // env-gated stream only: judged at Reserve
+		} else if want != st.IsSuccess() {
 			h.Fail("C07:filter-verdict", "Filter of pod %d (%d GPU x %v, designated %v) on node %d answered %v; the GPUs it may use there fit = %v", id, cnt, req, designated, i, st, want)
 		}
 		if st.IsSuccess() {
@@ -564,7 +723,7 @@ func (m *c07Multi) cycle(sp *c07CycleSpec) (bool, bool) {
 	want := fits(nd)
 	if !res.ok {
 		h.Obs("alloc fail")
-		if want {
+		if want && !sp.overconsumed {
 			h.Fail("C07:reserve-refused-although-free", "Reserve of pod %d (%d GPU x %v, designated %v: %v) on node %d refused (%v) although the GPUs it may use are free there", id, cnt, req, designated, des, x, rst)
 		}
 		return false, false
@@ -609,12 +768,19 @@ func (m *c07Multi) cycle(sp *c07CycleSpec) (bool, bool) {
 		}
 		seen[a.minor] = true
 		row := before.row(0, a.minor)
+		// extension 4: with reservations on the node "free" counts what every reservation the pod does not match still
+		// holds as in use (freeOn; without reservations it is the ledger's own free amount)
+		free := sp.freeOn(nd, before, a.minor)
 		for k := 0; k < c07D; k++ {
 			if req[k] >= 0 && a.vec[k] != req[k] {
 				h.Fail("C07:alloc-unsound:amount", "GPU %d committed %v, per-GPU request %v", a.minor, a.vec, req)
 			}
-			if a.vec.val(k) > row.f[k] {
-				h.Fail("C07:reserve-device-not-free", "pod %d: Reserve on node %d committed %v on GPU %d whose free amount there at that moment was %v (total %v, in use %v)", id, x, a.vec, a.minor, row.f, row.t, row.u)
+			if a.vec.val(k) > free[k] {
+				fp := "C07:reserve-device-not-free"
+				if sp.overconsumed {
+					fp = "C07:reserve-device-not-free:owner-exceeds-reservation" // env-gated stream only
+				}
+				h.Fail(fp, "pod %d: Reserve on node %d committed %v on GPU %d whose free amount there at that moment was %v (total %v, booked in use %v; unmatched reservations on the node: %v)", id, x, a.vec, a.minor, free, row.t, row.u, sp.unmatched != nil)
 				break
 			}
 		}
@@ -633,7 +799,13 @@ func (m *c07Multi) cycle(sp *c07CycleSpec) (bool, bool) {
 		nd.noteAdd(tt, id, g[tt], before)
 	}
 	nd.cur = nd.emitLedger()
-	nd.checkLedger("commit", before, nd.cur)
+	if sp.unmatched != nil {
+		// the ledger books an owner pod ON TOP of its reservation (by design), so a GPU whose reservation is partly consumed
+		// can go over its total in the ledger by a correct commit: that clause of checkLedger is judged by freeOn above
+		nd.checkLedger("commit-next-to-reservations", before, nd.cur)
+	} else {
+		nd.checkLedger("commit", before, nd.cur)
+	}
 	// sometimes the binding fails: Unreserve gives everything back
 	if sp.unreserve {
 		h.Op("rem %d %s", id, g.tok())
@@ -650,6 +822,203 @@ func (m *c07Multi) cycle(sp *c07CycleSpec) (bool, bool) {
 		h.Tag("cycle:Unreserve")
 	}
 	return true, false
+}
+
+// ---------------------------------------------------------------------------------------------------------------
+// C07 extension 4: non-owner pods next to UNMATCHED reservations.
+// A reservation that is Available holds its devices through its reserve pod's record; an owner pod that is allocated from
+// it is booked ON TOP (the ledger counts both).  For a pod that does not match the reservation RestoreReservation /
+// mergeReservationAllocations hand Filter and Reserve a discount per GPU that must take out exactly the double-counted
+// part (what the owners consumed): what the reservation STILL holds is in use for everybody but its owners.
+// Oracle (freeOn): free on a GPU = total - (plain pods' holdings + every reservation's whole record);
+//   C07:reserve-device-not-free  a committed GPU did not have the amount free at that moment
+//   C07:filter-verdict / C07:reserve-refused-although-free  as in the designated stream, on that notion of free.
+// Owners never hold more than their reservation does on a GPU and only GPUs of their reservation (what the Restricted
+// policy guarantees; see level_note for the other case).
+// ---------------------------------------------------------------------------------------------------------------
+func c07UnmatchedCase(t *testing.T, h *vHarness, r *vRand, pl *Plugin, podTx cache.TransformFunc, nodes []*corev1.Node, names []string) bool {
+	// VERIF_C07_OVERCONSUME=1 (off by default): an owner may hold MORE than its reservation does on a GPU (Default / Aligned
+	// policy: the rest comes out of the node's free amount), as much as is really free there
+	overEnv := os.Getenv("VERIF_C07_OVERCONSUME") == "1"
+	nn := r.Range(1, 3)
+	mem := int64(r.Pick([]int64{16 << 30, 80 << 30}))
+	m := c07NewMulti(t, h, r, pl, podTx, nodes, names, nn, mem)
+	ns := m.ns
+	nextPod := 1
+	owners := map[int]bool{}
+	unmatched := map[int][]*c07EvRsv{}
+	// what the harness has placed on (node, minor): plain pods + reservations (NOT the owners: they are inside)
+	held := map[[2]int]int64{}
+	for i := 0; i < nn; i++ {
+		ng := r.Range(1, 3)
+		for mi := 0; mi < ng; mi++ {
+			ns[i].inv[0] = append(ns[i].inv[0], c07Dev{minor: mi, healthy: !r.Chance(1, 16), res: c07Vec{100, mem, 100}, numa: -1})
+		}
+		m.sel(i).applyInventory(false)
+		var healthy []int
+		for _, d := range ns[i].inv[0] {
+			if d.healthy {
+				healthy = append(healthy, d.minor)
+			}
+		}
+		if len(healthy) == 0 {
+			continue
+		}
+		// sometimes a plain pod was there first
+		if r.Chance(1, 4) {
+			mi := healthy[r.Intn(len(healthy))]
+			amt := int64(r.Pick([]int64{30, 50}))
+			m.sel(i).doAddOn(nextPod, c07Groups{0: {{minor: mi, vec: m.frac(amt)}}})
+			held[[2]int{i, mi}] += amt
+			nextPod++
+		}
+		// reservations: each on 1 GPU (1 in 4: 2 GPUs), 50 or 100 per GPU, only where that much is left
+		for k, nr := 0, r.Range(1, 2); k < nr; k++ {
+			amt := int64(r.Pick([]int64{50, 100, 100}))
+			want := 1
+			if r.Chance(1, 4) {
+				want = 2
+			}
+			var al []c07Alloc
+			for _, j := range r.Perm(len(healthy)) {
+				mi := healthy[j]
+				if len(al) < want && held[[2]int{i, mi}]+amt <= 100 {
+					al = append(al, c07Alloc{minor: mi, vec: m.frac(amt)})
+				}
+			}
+			if len(al) == 0 {
+				continue
+			}
+			sort.Slice(al, func(a, b int) bool { return al[a].minor < al[b].minor })
+			rv := &c07EvRsv{id: 100 + nextPod, g: c07Groups{0: al}, policy: []schedulingv1alpha1.ReservationAllocatePolicy{
+				schedulingv1alpha1.ReservationAllocatePolicyDefault, schedulingv1alpha1.ReservationAllocatePolicyAligned, schedulingv1alpha1.ReservationAllocatePolicyRestricted}[r.Intn(3)]}
+			nextPod++
+			// the reservation handler turns the Reservation into its reserve pod (name = UID = p<id>) and adds it
+			m.sel(i).doAddOn(rv.id, rv.g)
+			for _, a := range al {
+				held[[2]int{i, a.minor}] += amt
+			}
+			// owners: 0-2 pods allocated from it, together never more than it holds on a GPU
+			left := map[int]int64{}
+			for _, a := range al {
+				left[a.minor] = amt
+			}
+			for o, no := 0, int(r.Pick([]int64{0, 0, 1, 1, 2})); o < no; o++ {
+				var og []c07Alloc
+				for _, a := range al {
+					take := int64(r.Pick([]int64{20, 50, 100}))
+					if take > left[a.minor] {
+						take = left[a.minor]
+					}
+					if take == 0 || (len(al) > 1 && r.Chance(1, 3)) {
+						continue
+					}
+					left[a.minor] -= take
+					if room := 100 - held[[2]int{i, a.minor}]; overEnv && left[a.minor] == 0 && room >= 30 && rv.policy != schedulingv1alpha1.ReservationAllocatePolicyRestricted && r.Bool() {
+						extra := int64(30)
+						if room >= 50 && r.Bool() {
+							extra = 50
+						}
+						take += extra
+						held[[2]int{i, a.minor}] += extra
+						h.Tag("rsv:owner-exceeds-reservation")
+					}
+					og = append(og, c07Alloc{minor: a.minor, vec: m.frac(take)})
+				}
+				oid := nextPod
+				nextPod++
+				rv.owners = append(rv.owners, oid)
+				owners[oid] = true
+				if len(og) == 0 || r.Chance(1, 6) {
+					// an owner that is gone (or holds no device): the reservation cache still lists it, the ledger has no record
+					h.Tag("rsv:owner-without-record")
+					continue
+				}
+				m.sel(i).doAddOn(oid, c07Groups{0: og})
+			}
+			if r.Chance(1, 5) {
+				sh := make([]int, len(rv.owners))
+				for a, b := range r.Perm(len(rv.owners)) {
+					sh[a] = rv.owners[b]
+				}
+				rv.owners = sh
+			}
+			unmatched[i] = append(unmatched[i], rv)
+		}
+		// a plain pod on what is left
+		if r.Chance(1, 3) {
+			mi := healthy[r.Intn(len(healthy))]
+			if room := 100 - held[[2]int{i, mi}]; room >= 30 {
+				amt := int64(30)
+				if room >= 50 && r.Bool() {
+					amt = 50
+				}
+				m.sel(i).doAddOn(nextPod, c07Groups{0: {{minor: mi, vec: m.frac(amt)}}})
+				held[[2]int{i, mi}] += amt
+				nextPod++
+			}
+		}
+	}
+	reserved := 0
+	for cyi, cycles := 0, r.Range(1, 2); cyi < cycles; cyi++ {
+		sp := &c07CycleSpec{id: nextPod, cnt: 1, amount: int64(r.Pick([]int64{30, 50, 50, 100, 100})), unmatched: unmatched, owners: owners}
+		nextPod++
+		if r.Chance(1, 6) {
+			sp.cnt, sp.amount = 2, 100
+		}
+		sp.hint = r.Chance(5, 6)
+		if r.Chance(1, 4) { // a designation on top (the annotation of an earlier placement)
+			sp.hasAnn = true
+			pm := r.Perm(3)
+			for i := 0; i < sp.cnt; i++ {
+				sp.des = append(sp.des, c07Alloc{minor: pm[i], vec: m.frac(sp.amount)})
+			}
+			sort.Slice(sp.des, func(i, j int) bool { return sp.des[i].minor < sp.des[j].minor })
+		}
+		sp.order = r.Perm(nn)
+		sp.between = func() {
+			if !r.Chance(1, 3) {
+				return
+			}
+			nd := ns[r.Intn(nn)]
+			var plain []int
+			for _, pid := range nd.livePods() {
+				if !owners[pid] && pid < 100 {
+					plain = append(plain, pid)
+				}
+			}
+			if len(plain) > 0 && r.Bool() {
+				m.sel(nd.idx).doDelOn(plain[r.Intn(len(plain))])
+				h.Tag("cycle:event-between:pod-delete")
+			} else {
+				d := nd.inv[0][r.Intn(len(nd.inv[0]))]
+				oid := nextPod
+				nextPod++
+				m.sel(nd.idx).doAddOn(oid, c07Groups{0: {{minor: d.minor, vec: m.frac(int64(r.Pick([]int64{50, 100})))}}})
+				h.Tag("cycle:event-between:pod-add")
+			}
+		}
+		sp.pick = func(feasible []int) int {
+			x := -1
+			if len(feasible) > 0 {
+				x = feasible[r.Intn(len(feasible))]
+			}
+			if x < 0 || r.Chance(1, 8) {
+				x = r.Intn(nn)
+				h.Tag("cycle:Reserve-on-arbitrary-node")
+			}
+			return x
+		}
+		sp.unreserve = r.Chance(1, 6)
+		ok, stop := m.cycle(sp)
+		if ok {
+			reserved++
+		}
+		if stop {
+			break
+		}
+	}
+	return reserved > 0
 }
 
 func c07DesignatedFixture(t *testing.T) (*Plugin, []*corev1.Node, []string) {
@@ -674,13 +1043,22 @@ func TestVerifC07Designated(t *testing.T) {
 	pl, nodes, names := c07DesignatedFixture(t)
 	podTx, _ := c07Transforms()
 
-	n := h.N(400, 8000)
+	n := h.N(560, 11200)
 	for idx := 0; idx < n; idx++ {
 		r := h.Begin(idx)
 		if r == nil {
 			continue
 		}
 		pl.nodeDeviceCache = newNodeDeviceCache()
+		// extension 4, 2 cases in 7: nodes whose GPUs are held by Available reservations, pods that match none of them
+		if r.Chance(2, 7) {
+			h.Tag("stream:unmatched-reservations")
+			if c07UnmatchedCase(t, h, r, pl, podTx, nodes, names) {
+				h.Nontrivial()
+			}
+			h.End()
+			continue
+		}
 		nn := r.Range(2, 3)
 		mem := int64(r.Pick([]int64{16 << 30, 80 << 30}))
 		// 1 case in 3: the nodes also have RDMA devices (never the bottleneck: <= 20 of 100 per pod, <= 3 pods), half of the
@@ -800,6 +1178,9 @@ func TestVerifC07Designated(t *testing.T) {
 		"[a pod add / delete event on some node] -> Reserve on a node that passed Filter (1 in 8: any node) -> [Unreserve], Reserve under schedulingphase.RecordPhase; " +
 		"the pod carries a device-allocated annotation (designation) in 4 of 5 cycles and the DeviceShare scheduling hint in 5 of 6; 1 or 2 GPUs, fractional or whole; " +
 		"1 case in 3 with RDMA devices, well-planned nodes and joint GPU+RDMA pods; 1 pod in 4 written with deprecated resource names; every pod passes the pod transformer. " +
+		"2 cases in 7 (stream:unmatched-reservations): every node carries 1-2 Available reservations (reserve pod record on 1-2 GPUs, 50 or 100 per GPU) that 0-2 owner pods have not / partly / fully consumed " +
+		"(+ owners that are gone), plain pods on what is left; the scheduled pods match NO reservation: PreFilter -> PreRestoreReservation -> RestoreReservation(matched none, unmatched all) on every node -> " +
+		"Filter -> [event] -> Reserve, 1 pod in 4 designated; free = total - (plain pods + what every reservation holds). " +
 		"non-trivial = at least one Reserve committed; distinct by op list")
 }
 
@@ -882,9 +1263,102 @@ func TestVerifC07DesignatedExhaustive(t *testing.T) {
 			}
 		}
 	}
+	designatedN := idx
+	// ---- extension 4: unmatched reservations, exhaustive small scope.  ONE node, GPUs 0 and 1 of 100; EVERY combination of
+	//   per GPU one of 11 occupancies: empty | plain pod 50 | plain pod 100 | reservation 50 unconsumed | 50 with owner 20 |
+	//     50 with owner 50 | reservation 100 unconsumed | 100 with owner 50 | 100 with owner 100 | reservation 50 + plain pod 50 |
+	//     reservation 100 whose only owner is gone                                                                 121
+	//   the pod (matches no reservation): 1 x 30 | 1 x 50 | 1 x 100 | 2 x 100                                          4
+	//   no annotation | designated to GPU 0 (2 GPUs: to both) | designated to GPU 1 (2 GPUs: both, without hint)      3
+	//   between Filter and Reserve: nothing | a plain pod takes 50 of GPU 0 | the plain pod on GPU 0 / 1 is deleted   4
+	// = 5808 histories
+	type occ struct {
+		rsv, owner, plain int64
+		gone            bool
+	}
+	occs := []occ{{}, {plain: 50}, {plain: 100}, {rsv: 50}, {rsv: 50, owner: 20}, {rsv: 50, owner: 50}, {rsv: 100}, {rsv: 100, owner: 50},
+		{rsv: 100, owner: 100}, {rsv: 50, plain: 50}, {rsv: 100, gone: true}}
+	type want struct {
+		cnt    int
+		amount int64
+	}
+	wants := []want{{1, 30}, {1, 50}, {1, 100}, {2, 100}}
+	for o0 := range occs {
+		for o1 := range occs {
+			for _, w := range wants {
+				for dz := 0; dz < 3; dz++ {
+					for ev := 0; ev < 4; ev++ {
+						r := h.Begin(idx)
+						idx++
+						if r == nil {
+							continue
+						}
+						pl.nodeDeviceCache = newNodeDeviceCache()
+						m := c07NewMulti(t, h, r, pl, podTx, nodes, names, 1, mem)
+						for mi := 0; mi < 2; mi++ {
+							m.ns[0].inv[0] = append(m.ns[0].inv[0], c07Dev{minor: mi, healthy: true, res: c07Vec{100, mem, 100}, numa: -1})
+						}
+						m.sel(0).applyInventory(false)
+						owners := map[int]bool{}
+						unmatched := map[int][]*c07EvRsv{}
+						plainOn := map[int]int{}
+						for mi, oc := range []occ{occs[o0], occs[o1]} {
+							if oc.rsv > 0 {
+								rv := &c07EvRsv{id: 101 + mi, g: c07Groups{0: {{minor: mi, vec: m.frac(oc.rsv)}}}, policy: schedulingv1alpha1.ReservationAllocatePolicyRestricted}
+								m.sel(0).doAddOn(rv.id, rv.g)
+								if oc.owner > 0 {
+									rv.owners = []int{11 + mi}
+									owners[11+mi] = true
+									m.sel(0).doAddOn(11+mi, c07Groups{0: {{minor: mi, vec: m.frac(oc.owner)}}})
+								}
+								if oc.gone {
+									rv.owners = []int{11 + mi}
+									owners[11+mi] = true
+								}
+								unmatched[0] = append(unmatched[0], rv)
+							}
+							if oc.plain > 0 {
+								plainOn[mi] = 21 + mi
+								m.sel(0).doAddOn(21+mi, c07Groups{0: {{minor: mi, vec: m.frac(oc.plain)}}})
+							}
+						}
+						sp := &c07CycleSpec{id: 50, cnt: w.cnt, amount: w.amount, order: []int{0}, hint: true, unmatched: unmatched, owners: owners}
+						if dz > 0 {
+							sp.hasAnn = true
+							if w.cnt == 2 {
+								sp.des = []c07Alloc{{minor: 0, vec: m.frac(w.amount)}, {minor: 1, vec: m.frac(w.amount)}}
+								sp.hint = dz == 1
+							} else {
+								sp.des = []c07Alloc{{minor: dz - 1, vec: m.frac(w.amount)}}
+							}
+						}
+						sp.between = func() {
+							switch ev {
+							case 1:
+								m.sel(0).doAddOn(60, c07Groups{0: {{minor: 0, vec: m.frac(50)}}})
+							case 2, 3:
+								if pid, ok := plainOn[ev-2]; ok {
+									m.sel(0).doDelOn(pid)
+								}
+							}
+						}
+						sp.pick = func([]int) int { return 0 }
+						if ok, _ := m.cycle(sp); ok {
+							h.Nontrivial()
+						}
+						h.End()
+					}
+				}
+			}
+		}
+	}
+	h.Extra("exhaustive-unmatched-reservations", fmt.Sprintf("1 node x 2 GPUs: 11 x 11 occupancies (plain pods, reservations unconsumed / partly / fully consumed / owner gone) x 4 requests x 3 designations x 4 events between = %d histories", idx-designatedN))
+	idx = designatedN
 	h.Extra("exhaustive", fmt.Sprintf("2 nodes x 2 GPUs: 16 occupancies x 4 designations x 4 Filter orders x 9 events between x 2 Reserve nodes = %d histories", idx))
 	h.Close("exhaustive enumeration: two nodes with two GPUs each, every occupancy by running pods, a one-GPU pod without annotation / designated to GPU 0 / GPU 1 / annotated without hint, " +
 		"Filter on node 0 then 1, 1 then 0, 0 only, 1 only, then nothing / another pod takes one of the four GPUs / the pod running on one of them is deleted, then Reserve on node 0 or node 1; " +
+		"then (extension 4) one node with two GPUs, every pair of 11 occupancies (plain pods, reservations unconsumed / partly / fully consumed / owner gone), a pod that matches no reservation (1 x 30 / 50 / 100, 2 x 100), " +
+		"no annotation / designated, nothing / a plain pod added / deleted between Filter and Reserve, through PreRestoreReservation + RestoreReservation; " +
 		"non-trivial = Reserve committed")
 }
 
